@@ -251,6 +251,12 @@ def membership_checks(obs, pix, sky, w, case):
     q = {'kind': 'mixed', 'form': '1d', 'shape': None, 'dtype': 'float64', 'n': 80, 'rs': case['rs']}
     pc = c01.make_queries(pix, q)
     px, py = np.asarray(pc.x, dtype=float), np.asarray(pc.y, dtype=float)
+    # the region's own defining positions are ordinary query positions (a catalogue usually holds them)
+    own = [getattr(pix, a) for a in ('center', 'start', 'end') if hasattr(pix, a)]
+    if own:
+        px = np.concatenate([px, [float(o.x) for o in own]])
+        py = np.concatenate([py, [float(o.y) for o in own]])
+        pc = PixCoord(px, py)
     sc = w.pixel_to_world(px, py)
     finite = np.isfinite(np.asarray(sc.data.lon.value)) & np.isfinite(np.asarray(sc.data.lat.value))
     if not finite.all():
